@@ -6,16 +6,17 @@ id=$1; demodir=$2; shift 2
 export GOFLAGS=-mod=mod GOPROXY=off
 wt=/tmp/wt-$id; mut=/tmp/mut-$id
 cd $wt || exit 2
+# the worktree may have been disturbed (git stash is shared between worktrees): rebuild its state from patch.diff
+git checkout -q -- . && git apply $mut/patch.diff || { echo "patch.diff does not apply to a clean worktree"; exit 2; }
 echo "== $id: patch"; git diff --stat | tail -n 3
 echo "== build+tests with patch"; (go build ./... && go test -vet=off -count=1 . ./proto/... ./compress/... ./chpool/... 2>&1 | grep -v "no test files" | tail -n 6)
 cp $mut/demo_test.go $wt/$demodir/zz_demo_test.go
 echo "== demo with patch (expect FAIL)"; (cd $wt/$demodir && go test -vet=off -count=1 -run 'Demo' . 2>&1 | tail -n 4)
-git stash -q
+git apply -R $mut/patch.diff
 cp $mut/demo_test.go $wt/$demodir/zz_demo_test.go
 echo "== demo without patch (expect ok)"; (cd $wt/$demodir && go test -vet=off -count=1 -run 'Demo' . 2>&1 | tail -n 3)
 rm -f $wt/$demodir/zz_demo_test.go
-git stash pop -q
-rm -f $wt/$demodir/zz_demo_test.go
+git apply $mut/patch.diff
 echo "== checks against /repo with the patch"
 cd /repo && git apply $mut/patch.diff || { echo "patch does not apply to /repo"; exit 2; }
 for c in "$@"; do
